@@ -13,7 +13,10 @@ _EXTRA = {
     # pieces handed out by reads, cuts and splits are new objects that share nothing with a mutable parent
     # a stream that a call leaves with pos outside [0, len] has a repr that does not evaluate back
     'C19': ['bitstream.ConstBitStream.bytealign', 'bitstream.ConstBitStream._setbitpos', 'bitstream.ConstBitStream._setbytepos'],
-    'C04': ['bitstream.ConstBitStream.read', 'bitstream.ConstBitStream.peek', 'bitstream.ConstBitStream.readto', 'bitstream.ConstBitStream.readlist',
+    # every code of the 8-bit / micro-scaling formats is decoded from the unsigned or signed value of the whole bitstring
+    'C11': ['bits.Bits._getuint', 'bits.Bits._getint'],
+    # a.uint12 = v goes through __setattr__'s fallback: the object must end up owning an unflagged store of its own
+    'C04': ['bitarray_.BitArray.__setattr__', 'bitstream.ConstBitStream.read', 'bitstream.ConstBitStream.peek', 'bitstream.ConstBitStream.readto', 'bitstream.ConstBitStream.readlist',
             'bitstream.ConstBitStream.peeklist', 'bits.Bits.cut', 'bits.Bits.split', 'bits.Bits.cut@sweep', 'bits.Bits.split@sweep', 'bits.Bits._read_dtype_list',
             'bits.Bits.join', 'bits.Bits.__getitem__', 'bitstream.ConstBitStream.__getitem__'],
 }
